@@ -600,6 +600,7 @@ package larking
 //@   requires s != nil && s.r != nil && s.codec != nil && s.opts.maxReceiveMessageSize >= 0 && impl(m, "proto.Message")
 //@   witness verifWitnessGRPCRecv
 //@   assert at "if err := s.codec.Unmarshal(b, args); err != nil {" [size-limit C08] len(b) <= s.opts.maxReceiveMessageSize
+//@   assert at "if err := s.decompress(buf, b); err != nil {" [pooled-buffer-empty C06] buflen(buf) == 0
 //@   ensures [truncated-frame-is-an-error C06] at "return err" #3 err != io.EOF
 
 // Assumed interface contract (all implementations delegate to protobuf-go).
@@ -616,4 +617,20 @@ package larking
 //@   requires s != nil && s.w != nil && s.codec != nil && impl(m, "proto.Message") && impl(s.w, "http.Flusher")
 //@   requires s.opts.maxSendMessageSize <= 4294967295
 //@   witness verifWitnessGRPCSend
+//@   assert at "if err := s.compress(buf, b[5:]); err != nil {" [pooled-buffer-empty C06] buflen(buf) == 0
 //@   ensures [refused-only-over-send-limit C08] at `return fmt.Errorf("grpc: sent message larger than max (%d vs. %d)", size, s.opts.maxSendMessageSize)` len(b#1) - 5 > s.opts.maxSendMessageSize
+
+// serveGRPC: every path either runs the handler exactly once or refuses the
+// request through one of the seven reviewed http.Error sites (and then never
+// runs the handler); a grpc-timeout is refused only when it is not legal; the
+// routing snapshot is loaded once.
+//@ func (*Mux).serveGRPC serves C15 C08 C09 C12 partial ghost count post
+//@   requires m != nil && w != nil && r != nil
+//@   count hcalls `hd.handler(`
+//@   count refusals `http.Error(`
+//@   count loads `m.loadState(`
+//@   callsites `http.Error(` 7
+//@   ensures [handler-or-refusal C15 C08] hcalls == 1 || refusals == 1
+//@   ensures [no-handler-after-refusal C15] refusals == 1 ==> hcalls == 0
+//@   ensures [one-snapshot C12] loads <= 1
+//@   assert at `msg := fmt.Sprintf("malformed grpc-timeout: %v", err)` [refuses-only-malformed-timeouts C15] !LegalTimeout(v)
